@@ -33,21 +33,25 @@ Prefix(s, k) == SubSeq(s, 1, k)
 
 Init == absorbed = <<>> /\ hist = <<>> /\ good = TRUE
 
-CalcOk(c) ==
+\* eof: how the reader signals the end - with a separate final Read returning (0, EOF), or together with
+\* the last chunk (n > 0, EOF), which the io.Reader contract allows; the bytes absorbed are the same
+EofModes == {"separate", "joined"}
+
+CalcOk(c, eof) ==
     LET digest == absorbed \o c IN
     /\ good' = (good /\ digest = c)
     /\ absorbed' = <<>>                                  \* Sum, then Reset
-    /\ hist' = Append(hist, [content |-> c, outcome |-> "ok", k |-> Len(c), same |-> (digest = c)])
+    /\ hist' = Append(hist, [content |-> c, outcome |-> "ok", k |-> Len(c), same |-> (digest = c), eof |-> eof])
 
 \* the reader fails / the context is cancelled after k chunks were absorbed
 CalcAbort(c, how, k) ==
     /\ absorbed' = IF ResetOnFailure THEN <<>> ELSE absorbed \o Prefix(c, k)
     /\ good' = good
-    /\ hist' = Append(hist, [content |-> c, outcome |-> how, k |-> k, same |-> TRUE])
+    /\ hist' = Append(hist, [content |-> c, outcome |-> how, k |-> k, same |-> TRUE, eof |-> "separate"])
 
 Next == /\ Len(hist) < MaxCalcs
         /\ \E c \in Contents :
-             \/ CalcOk(c)
+             \/ \E eof \in EofModes : CalcOk(c, eof)
              \/ \E how \in {"fail", "cancel"}, k \in 0..Len(c) : CalcAbort(c, how, k)
 
 Spec == Init /\ [][Next]_vars
